@@ -604,7 +604,7 @@ Section Expand.
     let blank := match c with Some ch => t_is_space T ch | None => true end in
     if blank then
       match t_accent_alone T (txt t) with
-      | Some u => Ok (st, (TextT (pos t) [u] :: args, rest))
+      | Some u => Ok (st, (TextT (pos t) u :: args, rest))
       | None =>
           let '(st, e) := err st (s2l "could not find UTF-8 character") (pos t) in
           Ok (st, (e, rest))
@@ -617,7 +617,7 @@ Section Expand.
             Ok (st, (e, rest))
           else
             match t_accent_char T (txt t) ch with
-            | Some u => Ok (st, (TextT (pos t) [u] :: args, rest))
+            | Some u => Ok (st, (TextT (pos t) u :: args, rest))
             | None =>
                 let '(st, e) := err st (s2l "could not find UTF-8 character") (pos t) in
                 Ok (st, (e, rest))
